@@ -263,6 +263,15 @@ func c08history(r *core.Run, idx int) {
 			if rg.IntN(4) == 0 && m.in(x, y) { // re-store identical content
 				c := m.cells[y*m.w+x]
 				rn, comb, st = c.r, append([]rune(nil), c.comb...), c.st
+				if len(comb) > 0 && rg.IntN(2) == 0 {
+					// ... except for one combining rune (same length, same base, same style)
+					alt := []rune{0x301, 0x308, 0x20dd, 0x302}
+					k := rg.IntN(len(comb))
+					for comb[k] == alt[0] {
+						alt = alt[1:]
+					}
+					comb[k] = alt[0]
+				}
 			}
 			arg := append([]rune(nil), comb...)
 			cb.SetContent(x, y, rn, arg, st)
